@@ -95,6 +95,26 @@ def dependency_units(mod, prop, units, info):
             n += 1
         info[d] = n
         queue += list(getattr(dm, "DEPENDENCIES", []))
+    # whole checks whose subject this property builds on without a callee contract in between (e.g. what the serial
+    # receivers deliver, for the properties about what is done with the delivered items)
+    for d in getattr(mod, "INCLUDES", []):
+        if d in seen or d == prop:
+            continue
+        seen.add(d)
+        dm = importlib.import_module("checks.%s" % d.lower())
+        wmax = CF.WMAX
+        dunits = dm.units("quick")
+        CF.WMAX = wmax
+        n = 0
+        for u in dunits:
+            if u.name in have or not u.name.startswith(d + "/"):
+                continue
+            have.add(u.name)
+            u.name = "%s/dep:%s" % (prop, u.name)
+            u.prop = prop
+            out.append(u)
+            n += 1
+        info[d] = n
     return out
 
 
